@@ -388,3 +388,66 @@ var historyFacet = harness.Register(&harness.Facet[histCase]{
 })
 
 func TestIndexLengthHistory(t *testing.T) { historyFacet.Run(t) }
+
+// ---- facet: sparse arrays filled in arbitrary order, then restricted and shrunk ---------------------------------
+
+func genSparseHistory(t *rapid.T) histCase {
+	var c histCase
+	c.VNums = []string{"0", "1"}
+	c.TStrs = []string{"1"}
+	c.Recv = Recv{Kind: "array", Elems: genElems(t, "init", 3, false)}
+	index := func(label string) *Val {
+		v := vn(strconv.Itoa(rapid.IntRange(0, 40).Draw(t, label)))
+		if rapid.IntRange(0, 3).Draw(t, label+"-str") == 0 {
+			v = vs(v.N)
+		}
+		return &v
+	}
+	n := rapid.IntRange(3, 9).Draw(t, "nops")
+	kinds := []string{"set", "set", "set", "set", "def", "def", "len", "len", "del", "push", "pop", "seal", "deflen"}
+	for i := 0; i < n; i++ {
+		op := HOp{Op: kinds[pickUniform(t, "op", len(kinds))]}
+		if i == n-1 && rapid.Bool().Draw(t, "end-with-shrink") {
+			op.Op = "len"
+		}
+		switch op.Op {
+		case "set":
+			op.Key = index("key")
+			v := genElem(t, "v")
+			op.V = &v
+		case "def":
+			op.Key = index("key")
+			v := genElem(t, "v")
+			op.V = &v
+			op.W = rapid.Bool().Draw(t, "w")
+			op.C = rapid.IntRange(0, 3).Draw(t, "c") == 0 // mostly non-configurable
+		case "del":
+			op.Key = index("key")
+		case "len":
+			v := vn(strconv.Itoa(rapid.IntRange(0, 41).Draw(t, "len")))
+			op.V = &v
+		case "deflen":
+			if rapid.Bool().Draw(t, "with-value") {
+				v := vn(strconv.Itoa(rapid.IntRange(0, 41).Draw(t, "len")))
+				op.V = &v
+			}
+			op.W = rapid.IntRange(0, 3).Draw(t, "w") > 0
+		case "push":
+			v := genElem(t, "v")
+			op.V = &v
+		}
+		c.Ops = append(c.Ops, op)
+	}
+	return c
+}
+
+var sparseFacet = harness.Register(&harness.Facet[histCase]{
+	Name:     "sparse-shrink-history",
+	Rule:     "rapid: an array of ≤ 3 elements and a history of 3–9 steps from {R[i]=v, defineProperty(R,i,{…, configurable mostly false}), R.length=n, delete R[i], push, pop, seal, defineProperty(R,'length',…)} with indices drawn independently from 0..40 (so elements are created in arbitrary, not ascending, order and the array stays sparse) and lengths from 0..41, half of the histories ending with a length assignment; every step compared with the lib/m08 model of 15.4.5.1 (shrinking deletes strictly from the highest index down and stops at the first non-configurable element) and the length invariant checked on otto's state alone; non-trivial = some step is not a plain set/get/has/push with a small index; distinct by the whole history",
+	Quick:    5000,
+	Thorough: 40000,
+	Gen:      genSparseHistory,
+	Check:    checkHistory,
+})
+
+func TestSparseShrinkHistory(t *testing.T) { sparseFacet.Run(t) }
